@@ -85,6 +85,40 @@ def check_cli(cr, ctx, out_fmt, optimised=False):
         ctx.count("partition-ok:cli-files")
 
 
+def replace_fasta_keeping_cache_mtime(cr, rng):
+    """The FASTA is replaced, at the same path, by another version of the assembly: a stretch inside some contigs
+    is now N (the contig is two contigs).  The new file has exactly the mtime the index cache files of the
+    first run have (coarse timestamps, cp -p, rsync -t).  The run must describe the file as it is now."""
+    from vf.ref import fasta_ref
+
+    caches = [Path(str(cr["assembly_file"]) + ".fai"), Path(str(cr["assembly_file"]) + ".agp")]
+    if not all(c.exists() for c in caches):
+        return False
+    recs = {r["name"]: bytearray(r["seq"]) for r in fasta_ref.parse(cr["fasta_bytes"])}
+    inp2 = []
+    changed = False
+    for name, rows in cr["input"]:
+        new_rows = []
+        for r in rows:
+            if r[0] == "F" and r[3] - r[2] + 1 >= 5 and rng.random() < 0.5:
+                a = rng.randint(r[2] + 1, r[3] - 2)
+                b = rng.randint(a, min(r[3] - 1, a + 40))
+                recs[name][a - 1 : b] = b"N" * (b - a + 1)
+                new_rows += [["F", r[1], r[2], a - 1, 1, []], ["G", b - a + 1, "scaffold"], ["F", r[1], b + 1, r[3], 1, []]]
+                changed = True
+            else:
+                new_rows.append(r)
+        inp2.append([name, new_rows])
+    if not changed:
+        return False
+    out = b"".join(b">" + n.encode() + b"\n" + b"\n".join(bytes(sq[k : k + 60]) for k in range(0, len(sq), 60)) + b"\n" for n, sq in recs.items())
+    t = min(c.stat().st_mtime_ns for c in caches)
+    cr["assembly_file"].write_bytes(out)
+    os.utime(cr["assembly_file"], ns=(t, t))
+    cr["fasta_bytes"], cr["input"] = out, inp2
+    return True
+
+
 def run_cli(shard, ctx):
     from vf import cli_runs
 
@@ -130,6 +164,10 @@ def run_cli(shard, ctx):
             fmt = rng.choice(["agp", "tpf"])
         try:
             check_cli(cr, ctx, fmt)
+            if mode == 0 and i % 8 == 0 and replace_fasta_keeping_cache_mtime(cr, rng):
+                cli_runs.clear_outputs(cr)
+                ctx.count("cli:rerun-after-fasta-replaced-with-cache-mtime")
+                check_cli(cr, ctx, fmt)
         finally:
             cli_runs.cleanup(cr)
 
@@ -172,6 +210,7 @@ def gates(c, tier):
         "cli:primary-mode-with-several-other-assemblies": 3,
         "cli:name-spelled-haplotype-seen-before-its-tag": 3,
         "cli:hostile-map-under-python-O": 40,
+        "cli:rerun-after-fasta-replaced-with-cache-mtime": 10,
         "out:multi-assembly": 100,
         "out:with-cuts": 300,
         "label:in:both-strands": 500,
